@@ -171,7 +171,8 @@ let verdict case impl =
     let m_tok = "some:" ^ hex_of_z (feed p [key]) in
     if o_part = m_part && o_tok = m_tok then "ok"
     else begin
-      let want = (if scen <> "s" || fm = FetchDisabled then None else
+      (* inside C03_*_table_fetch_modes: table listed, and Full with column rows or Minimal *)
+      let want = (if fm = FetchDisabled || not (scen = "s" || (scen = "n" && fm = FetchMinimal)) then None else
                     match partitioners_get rows ks t None with
                     | Some (Some name) when ends_with name cdc_suffix -> Some (token_spec PCdc key)
                     | Some (Some name) when ends_with name murmur3_suffix -> Some (token_spec PMurmur3 key)
